@@ -24,11 +24,20 @@ def _ranges(d):
     return out
 
 
+def _via_parser(d):
+    """the tolerant parser with a strict grammar: what pvl.loads(text, grammar=G()) builds"""
+    import pvl.parser as P, pvl.grammar as G
+    return P.OmniParser(grammar={"PVL": G.PVLGrammar, "ODL": G.ODLGrammar, "PDS3": G.PDSGrammar}[d]())
+
+
 def _load(job):
-    d, text = job
-    obs = loaders.load(d, text)
+    d, text = job[0], job[1]
+    via = job[2] if len(job) > 2 else None
+    obs = loaders.load(d, text, parser=_via_parser(via), parser_factory=lambda: _via_parser(via)) if via else loaders.load(d, text)
     ev = {"ev": "load", "d": d, "text": [ord(c) for c in text], "kind": obs["kind"], "type": obs.get("type", ""),
           "pos": -1, "lineno": -1, "colno": -1}
+    if via:
+        ev["via"] = "loads(grammar=%sGrammar())" % via
     for k in ("pos", "lineno", "colno"):
         if isinstance(obs.get(k), int):
             ev[k] = obs[k]
@@ -65,6 +74,16 @@ def run(ctx, rep):
         text = loaders.cps(c["text"])
         for d in loaders.CONFIGS:
             jobs.append((d, text))
+        # the strict grammars under the tolerant parser (pvl.loads(text, grammar=G())): the character set is the grammar's
+        for d in ("PVL", "ODL", "PDS3"):
+            jobs.append((d, text, d))
+    # ... also behind a repaired missing value, at top level and inside a block: the ISIS configuration, and the PVL grammar
+    # under the tolerant parser, for which the reference dialect is ISIS (tolerant grammar, PVL character set)
+    for cp in cps:
+        for text in ("GROUP = g\n a = \n b = \"x%sy\"\nEND_GROUP = g\nEND\n" % chr(cp), "a =\nb = (1, %sz)\nEND\n" % chr(cp),
+                     "OBJECT = o\n a =\n GROUP = g\n  b =\n  c = %s\n END_GROUP\nEND_OBJECT\nEND\n" % chr(cp)):
+            jobs.append(("ISIS", text))
+            jobs.append(("ISIS", text, "PVL"))
     loads = pool_map(_load, jobs, chunksize=200)
     events = ranges + [e for e, _ in loads]
     details = [None] * len(ranges) + [o for _, o in loads]
@@ -96,17 +115,20 @@ def run(ctx, rep):
                 locus = "table"
             else:
                 text = loaders.cps(ev["text"])
-                rep.case("position/" + ev["d"], (ev["d"], text), any(ord(ch) > 126 or ord(ch) < 32 and ch not in "\n\r" for ch in text))
+                rep.case("position/" + ev.get("via", ev["d"]), (ev.get("via", ev["d"]), text), any(ord(ch) > 126 or ord(ch) < 32 and ch not in "\n\r" for ch in text))
                 case = {"config": ev["d"], "text": text}
                 locus = "position"
             fails = list(v["fails"])
-            if ev["ev"] == "load" and not fails and "o" in v:
+            if ev.get("via"):         # judged only on "a disallowed character is a LexerError at that character"
+                fails = [c for c in fails if c in ("not-LexerError", "pos-range", "pos-near-character", "lineno", "colno")]
+                case["config"] = ev["via"]
+            elif ev["ev"] == "load" and not fails and "o" in v:
                 ref = loaders.ref_outcome(v["o"])
                 if ref["verdict"] == "accept" and det["kind"] == "module" and loaders.canon(det["tree"]) != loaders.canon(ref["tree"]):
                     fails.append("characters-not-returned-unchanged")
             if not fails:
                 rep.traces_validated += 1
             for clause in fails[:1]:
-                rep.fail({"config": ev["d"], "locus": locus, "observed": clause}, case, {"event": {k: ev[k] for k in ev if k != "text"}, "observed": det})
+                rep.fail({"config": ev.get("via", ev["d"]), "locus": locus, "observed": clause}, case, {"event": {k: ev[k] for k in ev if k != "text"}, "observed": det})
     rep.coverage_extra["code_points_checked_against_table"] = npts
     rep.sample({"range_event": ranges[1], "position_case": {"text": loaders.cps(r.printed[7]["text"]), "cp": r.printed[7]["cp"]}})
